@@ -271,7 +271,20 @@ def check(ctx: Ctx):
     sv = sel.params[0]
     ctx.check(f"d_costs = {{d: {sv}.cost_for_val(d) for d in {sv}.domain}}" in t and "d_costs[d] += f_costs[d]" in t and f"for f_costs in {sel.params[1]}.values()" in t,
               "R-MARGINAL", "select_value: variable cost + every factor's message", sel, sel.node, "")
-    ctx.check(t.count("key=itemgetter(1)") == 2 and "return (optimal_d[0], optimal_d[1])" in t, "R-MODE.b", "select_value: optimum on the cost slot, returns (value, cost)", sel, sel.node, "")
+    # the optimum is taken over (value, cost) items by their cost slot, and (value, cost) is returned in that order: either the pair is kept
+    # and indexed [0], [1], or it is unpacked into two names returned in the same order
+    sels = [c for c in ast.walk(sel.node) if isinstance(c, ast.Call) and call_name(c) in ("min", "max") and any(k.arg == "key" and norm(k.value) in ("itemgetter(1)", "operator.itemgetter(1)", "lambda x: x[1]") for k in c.keywords)
+            and c.args and norm(c.args[0]) == "d_costs.items()"]
+    rets = [r for r in walk_no_nested(sel.node) if isinstance(r, ast.Return)]
+    oks = len(sels) == 2 and len(rets) == 1 and isinstance(rets[0].value, ast.Tuple) and len(rets[0].value.elts) == 2
+    if oks:
+        tg = {norm(a.targets[0]) for a in ast.walk(sel.node) if isinstance(a, ast.Assign) and a.value in sels}
+        oks = len(tg) == 1
+        if oks:
+            tgt = next(iter(tg))
+            r0, r1 = [norm(e) for e in rets[0].value.elts]
+            oks = (r0, r1) == (f"{tgt}[0]", f"{tgt}[1]") or f"({r0}, {r1})" == tgt or f"{r0}, {r1}" == tgt.strip("()")
+    ctx.check(oks, "R-MODE.b", "select_value: optimum on the cost slot, returns (value, cost)", sel, rets[0] if rets else sel.node, "")
     # ---- mode at call sites ---------------------------------------------------------------
     funcs = []
     for mod in (MS, AMS):
@@ -333,18 +346,38 @@ def check(ctx: Ctx):
     if len(loops) != 1:
         ctx.bad("R-CUTOFF", "approx_match: one loop over the values", apm, apm.node, "expected a single loop over the cost table")
     else:
-        from ..facts import if_paths
-        for facts, kind, st in if_paths(loops[0].body):
-            if kind in ("fall", "continue"):
-                n_fall += 1
-                txt = [(norm(t_), p_) for t_, p_ in facts if isinstance(t_, ast.Compare) and len(t_.ops) == 1]
-                equal = any((" != " in x and not p_) or (" == " in x and p_) for x, p_ in txt if coef not in x)
-                within = any(coef in x and ((" < " in x or " <= " in x) and p_ or (" > " in x or " >= " in x) and not p_) for x, p_ in txt)
-                ctx.check(equal or within, "R-CUTOFF", "approx_match: a value matches only if equal or within the stability tolerance", apm, loops[0],
-                          "a path lets a value count as 'matching' although the costs differ and no tolerance test passed: [" + "; ".join(("" if p_ else "not ") + x for x, p_ in txt) + "]")
-            elif kind == "return":
-                ctx.check(norm(st) == "return False", "R-CUTOFF", "approx_match: a per-value exit reports a mismatch", apm, st, "inside the loop only a mismatch may end the comparison")
-        ctx.check(n_fall >= 2, "R-CUTOFF", "approx_match: equal / within-tolerance paths present", apm, loops[0], "expected at least the 'equal' and the 'within tolerance' paths")
+        # truth table over the atomic conditions of the loop body: a value may count as matching (the body falls through) only in
+        # worlds where the two costs are equal or the relative variation is below the coefficient
+        from ..facts import bool_atoms, eval_bool, outcome_under
+        import itertools
+        atoms = bool_atoms(loops[0].body)
+        eqa = [a for a in atoms if coef not in a and (" != " in a or " == " in a) and "+" not in a and " 0" not in a]
+        tol = [a for a in atoms if coef in a and any(op in a for op in (" < ", " <= ", " > ", " >= "))]
+        n_eq = n_tol = 0
+        bad_world = None
+        if len(eqa) == 1 and len(tol) == 1 and len(atoms) <= 6:
+            for bits in itertools.product((False, True), repeat=len(atoms)):
+                val = dict(zip(atoms, bits))
+                kind, st = outcome_under(loops[0].body, val)
+                differ = val[eqa[0]] if " != " in eqa[0] else not val[eqa[0]]
+                within = val[tol[0]] if (" < " in tol[0] or " <= " in tol[0]) else not val[tol[0]]
+                if kind in ("fall", "continue"):
+                    n_fall += 1
+                    if not differ:
+                        n_eq += 1
+                    elif within:
+                        n_tol += 1
+                    else:
+                        bad_world = val
+                elif kind == "return":
+                    ctx.check(norm(st) == "return False", "R-CUTOFF", "approx_match: a per-value exit reports a mismatch", apm, st, "inside the loop only a mismatch may end the comparison")
+                elif kind == "unknown":
+                    bad_world = {"unrecognised statement": norm(st)[:60]}
+            ctx.check(bad_world is None, "R-CUTOFF", "approx_match: a value matches only if equal or within the stability tolerance", apm, loops[0],
+                      f"in the world {bad_world} the value counts as matching although the costs differ and the tolerance test did not pass")
+            ctx.check(n_eq >= 1 and n_tol >= 1, "R-CUTOFF", "approx_match: equal / within-tolerance paths present", apm, loops[0], "expected at least the 'equal' and the 'within tolerance' worlds to match")
+        else:
+            ctx.bad("R-CUTOFF", "approx_match: equality test and tolerance test recognised", apm, loops[0], f"atoms found: {atoms}")
     # default tolerance of the cut-off: exactness on trees needs every *changed* message to be sent
     ctx.rule("R-STABILITY", "with default parameters the cut-off only suppresses unchanged messages (tolerance 0)")
     dflt = None
